@@ -64,6 +64,44 @@ class LazyG:
                 return self._inc(n, i)
         return False
 
+    # ---- further observers (not used by paths.py today; provided so that a refactoring that uses them still runs) -------
+    def number_of_nodes(self, t=None):
+        return len(self.nodes(t))
+
+    order = number_of_nodes
+
+    def has_interaction(self, u, v, t=None):
+        if t is None:
+            return any(self.bit(u, v, i) for i in self.ids)
+        for i in self.ids:
+            if sbool(t == i):
+                return self.bit(u, v, i)
+        return False
+
+    def degree(self, n=None, t=None):
+        if n is None:
+            return {m: self.degree(m, t) for m in self.nodes_}
+        return len(self.neighbors(n, t)) + (len(self.predecessors(n, t)) if self.directed and t is not None else 0)
+
+    def interactions(self, nbunch=None, t=None):
+        out = []
+        for a in self.nodes_:
+            for b in self.nodes_:
+                if a == b or (not self.directed and self.nodes_.index(a) > self.nodes_.index(b)):
+                    continue
+                if (t is None and self.has_interaction(a, b)) or (t is not None and self.has_interaction(a, b, t)):
+                    out.append((a, b, {"t": [t]}))
+        return out
+
+    def __contains__(self, n):
+        return n in self.nodes_
+
+    def __iter__(self):
+        return iter(self.nodes_)
+
+    def __len__(self):
+        return len(self.nodes_)
+
     def nodes(self, t=None, data=False):
         allp = self.nodes_ + (list(self.extra) if self.extra else [])
         if t is None:
@@ -169,3 +207,30 @@ def install_fast_nx(paths_module):
     proxy.all_simple_paths = all_simple_paths
     paths_module.nx = proxy
     paths_module._dynverif_fast = True
+
+
+
+def eager(N, ids, directed, bits, strnodes=False):
+    """Eager real-graph variant: all presence bits are decided first, the REAL DynGraph/DynDiGraph is built through the public
+    API, and the caller runs the path code on it natively.  Returns (real graph, fully decided LazyG used as oracle side)."""
+    import dynetx as dn
+    names = ["a", "b", "c", "d"][:N] if strnodes else list(range(N))
+    pool = list(bits)
+    dec = {}
+    for i, a in enumerate(names):
+        for j, b in enumerate(names):
+            if i == j or (not directed and i > j):
+                continue
+            for t in ids:
+                dec[(a, b, t)] = sbool(pool.pop())
+    return names, dec
+
+
+def eager_build(names, ids, directed, dec):
+    import dynetx as dn
+    g = dn.DynDiGraph() if directed else dn.DynGraph()
+    for (a, b, t) in sorted(dec, key=lambda k: (k[2], repr(k))):
+        if dec[(a, b, t)]:
+            g.add_interaction(a, b, t)
+    O = LazyG(names, [i for i in ids if any(v for k, v in dec.items() if k[2] == i)], directed, [], fixed=dict(dec))
+    return g, O
